@@ -1499,6 +1499,154 @@ def _node_exprs(n):
 
 
 # ----------------------------------------------------------------------------
+# option keys of a caller-owned dict are not overwritten with derived values
+# ----------------------------------------------------------------------------
+def _caller_dicts(fn):
+    """names bound to caller-owned objects: parameters and targets of loops over parameters"""
+    params = {a.arg for a in fn.args.args + fn.args.kwonlyargs if a.arg not in ("self", "cls")}
+    out = set(params)
+    for x in pf.walk_no_nested(fn):
+        if isinstance(x, ast.For) and pf_names(x.iter) & params:
+            out |= {n.id for n in ast.walk(x.target) if isinstance(n, ast.Name)}
+    return out
+
+
+def rule_option_writeback(chk, gp):
+    cname = gp.cls.name
+    nst = 0
+    seen_fn = set()
+    for m, c in gp.prog.mro(gp.mod, gp.cls):
+        if m.rel != TR:
+            continue
+        for mname, fn in pf.methods(c).items():
+            if mname in seen_fn:
+                continue
+            seen_fn.add(mname)
+            owned = _caller_dicts(fn)
+            reads = {}
+            for x in ast.walk(fn):
+                if isinstance(x, ast.Subscript) and isinstance(x.ctx, ast.Load) and isinstance(x.value, ast.Name) \
+                        and x.value.id in owned and isinstance(x.slice, ast.Constant):
+                    reads.setdefault((x.value.id, x.slice.value), x)
+                if isinstance(x, ast.Call) and isinstance(x.func, ast.Attribute) and x.func.attr in ("get", "pop", "setdefault") \
+                        and isinstance(x.func.value, ast.Name) and x.func.value.id in owned and x.args \
+                        and isinstance(x.args[0], ast.Constant):
+                    reads.setdefault((x.func.value.id, x.args[0].value), x)
+            local_defs = {}
+            for x in pf.walk_no_nested(fn):
+                if isinstance(x, (ast.Assign, ast.AugAssign)):
+                    for t in (x.targets if isinstance(x, ast.Assign) else [x.target]):
+                        if isinstance(t, ast.Name):
+                            local_defs.setdefault(t.id, []).append(x.value)
+            for st in pf.walk_no_nested(fn):
+                if not isinstance(st, (ast.Assign, ast.AugAssign)):
+                    continue
+                for t in (st.targets if isinstance(st, ast.Assign) else [st.target]):
+                    if isinstance(t, ast.Subscript) and isinstance(t.value, ast.Name) and t.value.id in owned \
+                            and isinstance(t.slice, ast.Constant) and (t.value.id, t.slice.value) in reads:
+                        nst += 1
+                        d, k = t.value.id, t.slice.value
+                        where = "%s.%s" % (c.name, mname)
+                        inst = "%s: %s[%r], read as an input option, is only ever given a plain default" % (where, d, k)
+                        v = st.value
+                        plain = isinstance(st, ast.Assign) and (
+                            small_literal(v) is not None or isinstance(v, ast.Constant)
+                            or (isinstance(v, ast.Name) and v.id in MODULE_CONSTS) or pf.is_self_attr(v))
+                        if plain:
+                            chk.ok("option-writeback", inst)
+                        else:
+                            chk.violation("option-writeback", TR, where, "%s[%r] = <derived>" % (d, k), st.lineno,
+                                          "`%s` stores a value computed in this call back under the key %r of the "
+                                          "caller's dict, and the same key is read as an input option (`%s`): calling "
+                                          "the method again with the same dict (reset_reactions(); add_reactions(...)) "
+                                          "takes the derived value for the user's option and applies the remaining "
+                                          "adjustments a second time"
+                                          % (pf.src(st)[:80], k, pf.src(reads[(d, k)])[:40]), instance=inst)
+    chk.count("stores into option keys of caller-owned dicts", nst)
+
+
+# ----------------------------------------------------------------------------
+# per-iteration values are not used after their loop
+# ----------------------------------------------------------------------------
+def rule_stale_loop_value(chk, gp):
+    seen_fn = set()
+    for m, c in gp.prog.mro(gp.mod, gp.cls):
+        if m.rel != TR:
+            continue
+        for mname, fn in pf.methods(c).items():
+            if mname in seen_fn:
+                continue
+            seen_fn.add(mname)
+            loops = [x for x in pf.walk_no_nested(fn) if isinstance(x, ast.For)]
+            if not loops:
+                continue
+            where = "%s.%s" % (c.name, mname)
+            g = cfgm.CFG(fn)
+            alldefs = {}
+            for x in pf.walk_no_nested(fn):
+                ts = []
+                if isinstance(x, ast.Assign):
+                    ts = x.targets
+                elif isinstance(x, (ast.AugAssign, ast.AnnAssign)):
+                    ts = [x.target]
+                elif isinstance(x, ast.For):
+                    ts = [x.target]
+                elif isinstance(x, ast.With):
+                    ts = [i.optional_vars for i in x.items if i.optional_vars is not None]
+                for t in ts:
+                    if isinstance(t, (ast.Name, ast.Tuple, ast.List)):
+                        for n in ast.walk(t):
+                            if isinstance(n, ast.Name) and isinstance(n.ctx, ast.Store):
+                                alldefs.setdefault(n.id, []).append(x)
+            params = {a.arg for a in fn.args.args + fn.args.kwonlyargs}
+            comp = {n.id for cpr in ast.walk(fn) if isinstance(cpr, ast.comprehension) for n in ast.walk(cpr.target)
+                    if isinstance(n, ast.Name)}
+            for lp in loops:
+                if any(isinstance(x, ast.Break) for x in pf.walk_no_nested(lp)):
+                    continue  # search loops legitimately use the element they stopped at
+                inside = {id(x) for x in ast.walk(lp)}
+                per_iter = [nm for nm, ds in alldefs.items()
+                            if nm not in params and nm not in comp and all(id(d) in inside for d in ds)]
+                head = g.node_of(lp)
+                for nm in sorted(per_iter):
+                    # uses after the loop, reachable from its exit without a new definition
+                    bad = None
+                    start = [v for v in g.succ[head.id] if g.edge_label.get((head.id, v)) == "F"]
+                    seen, work = set(), list(start)
+                    while work and bad is None:
+                        u = work.pop()
+                        if u in seen:
+                            continue
+                        seen.add(u)
+                        n = g.nodes[u]
+                        if n.ast is not None and id(n.ast) in inside:
+                            continue  # back inside the loop through an enclosing loop: a new iteration defines it
+                        for root in _node_exprs(n):
+                            for x in ast.walk(root):
+                                if isinstance(x, ast.Name) and x.id == nm and bad is None:
+                                    bad = n
+                        if n.kind == "stmt" and isinstance(n.ast, ast.AugAssign) and pf.base_name(n.ast.target) == nm:
+                            bad = bad or n
+                        if bad is not None:
+                            break
+                        if n.ast is not None and any(d is n.ast for d in alldefs.get(nm, [])):
+                            continue
+                        work.extend(g.succ[u])
+                    inst = "%s: %s (set in every iteration of `for %s in %s`) is not used after the loop" % (
+                        where, nm, pf.src(lp.target), pf.src(lp.iter)[:40])
+                    if bad is None:
+                        chk.ok("stale-loop-value", inst, nontrivial=False)
+                    else:
+                        chk.violation("stale-loop-value", TR, where, "%s after `for %s in %s`" % (nm, pf.src(lp.target), pf.src(lp.iter)[:40]),
+                                      bad.ast.lineno,
+                                      "`%s` is only ever assigned inside the loop `for %s in %s`, yet `%s` uses it after "
+                                      "the loop has ended: it is the object of the LAST iteration only, so an operation "
+                                      "meant for every element (every kernel's block) reaches one of them"
+                                      % (nm, pf.src(lp.target), pf.src(lp.iter)[:40], pf.src(bad.ast).split("\n")[0][:70]),
+                                      instance=inst)
+
+
+# ----------------------------------------------------------------------------
 def _analyse_own(chk):
     # statement-level helper calls are inlined one level so that the rules see one body per anchored method
     prog = inline.inlined_program(chk.tree, [TR, DK, XE, XE2])
@@ -1509,6 +1657,8 @@ def _analyse_own(chk):
     chk.rule("memo-invalidate", "a cached attribute served under a guard is reset by every method that writes one of its inputs")
     chk.rule("pairing", "sibling loops over the systems of one reaction iterate the same (structs, counts) pairing")
     chk.rule("loop-carried", "locals feeding the stored rows are (re)defined in every iteration of the reaction loop")
+    chk.rule("option-writeback", "an option key of a caller-owned dict is only given plain defaults, never a derived value")
+    chk.rule("stale-loop-value", "a value set in every iteration of a loop (without break) is not used after that loop")
     chk.rule("stored-alias", "add_reactions never accumulates in place into an alias of the stored per-system arrays")
     chk.rule("fit-snapshot", "state stored by fit is not a pre-rescaling copy later combined with post-rescaling state")
     chk.rule("reset-append", "containers read by fit == appended by add_reactions ⊆ emptied by reset_reactions")
@@ -1532,6 +1682,8 @@ def _analyse_own(chk):
         chk.guard(rule_pairing, gp)
         chk.guard(rule_snapshot, gp)
         chk.guard(rule_stored_alias, gp)
+        chk.guard(rule_option_writeback, gp)
+        chk.guard(rule_stale_loop_value, gp)
     chk.guard(rule_memo, prog)
     # the kernel objects start with an empty list too
     dk = prog.module(DK)
@@ -1547,6 +1699,8 @@ def _analyse_own(chk):
     chk.floor("row-once", 2, "rxn_ref_list, rxn_noise_list, rxn_cov_list of xkernels and of ckernels")
     chk.floor("memo-invalidate", 1, "DFTKernel.get_kctrl computes and returns self.Kmm")
     chk.floor("loop-carried", 2, "rxn_ref, noise, rxn_cov")
+    chk.floor("option-writeback", 1, "rxn['unit'] default")
+    chk.floor("stale-loop-value", 10, "per-iteration locals of the loops of MOLGP methods")
     chk.floor("stored-alias", 1, "MOLGP.add_reactions")
     chk.floor("pairing", 1, "six loops over zip(rxn['structs'], rxn['counts'])")
     chk.floor("fit-snapshot", 2, "Kcov_, K_, alpha_mol_, y_mol_")
@@ -1674,6 +1828,14 @@ def mutants(tree):
                "            if rxn.get(\"noise_rel_factor\")", expect="loop-carried"),
         Mutant("label not reset per reaction", TR, "            rxn_ref = 0\n            if mode == 0:",
                "            if mode == 0:\n                rxn_ref = 0", expect="loop-carried"),
+        Mutant("resolved noise written back into the reaction dict", TR,
+               "            self.rxn_noise_list.append(noise)\n", "            rxn[\"noise\"] = noise\n            self.rxn_noise_list.append(noise)\n",
+               expect="option-writeback"),
+        Mutant("only the last kernel block rescaled", TR, "            Kimn_list = [x[0] ** 2 * k for k in Kimn_list]\n",
+               "            Kimn[:] *= x[0] ** 2\n", expect="stale-loop-value"),
+        Mutant("regulariser sized by the last kernel's M after the loop", TR,
+               "K += self.numerical_epsilon * np.identity(noise_nn.size)", "K += self.numerical_epsilon * np.identity(noise_nn.size) * (M > 0)",
+               expect="stale-loop-value"),
         Mutant("noise block snapshot before the rescaling", TR, fn=_seed_snapshot, expect="fit-snapshot"),
         Mutant("noise not squared", TR, "        noise_nn = noise_nn**2  # get noise covariance from noise std deviation\n", "",
                expect="fit-system"),
